@@ -92,6 +92,7 @@ func runCheck(args []string) int {
 		return runReplay(cfg, rep, cov)
 	}
 
+	go stuckWatch(cfg, rep, cov, ev, start)
 	code := 0
 	switch info.Engine {
 	case "histmon":
